@@ -1,4 +1,7 @@
+pub mod c01;
 pub mod corpus;
+pub mod dets;
+pub mod ev;
 pub mod rtree;
 pub mod synth;
 pub mod util;
